@@ -22,6 +22,7 @@ import os
 import z3
 
 from contracts.common import A, C, forall, rechecked
+from pyvc import arith
 from pyvc.spec import Builtin, Inline, Spec
 from pyvc.values import Clause, VBool, VGlobal, VInt, VRef, VSeq, VTuple, Vocab, z_int
 
@@ -605,6 +606,109 @@ def _native_build(tier, seed):
             "bound": f"IRDLOperation.build on every kind sequence of <= {maxd} definitions with every legal size vector (variadic sizes 0..2): builds, verifies, operands concatenated in order"}
 
 
+# ------------------------------------------------------------------ irdl_op_verify_arg_list
+TYPE_OF = z3.Function("type_of_value", z3.IntSort(), z3.IntSort())
+SEG_TYPES = z3.Function("types_of_segment", z3.IntSort(), z3.ArraySort(z3.IntSort(), z3.IntSort()))
+
+
+class VerifyArgList(Spec):
+    """
+    irdl_op_verify_arg_list(op, op_def, construct, ctx), for a concrete list of definitions (loop unrolled) whose accessors return None (absent
+    optional), a single value or a sequence of symbolic length: EVERY definition's constraint is verified, in the ONE shared context, against exactly
+    the types of its segment - the EMPTY range for an absent optional (that is what binds a range / length variable shared with another construct).
+    The constraint's own verify and verify_variadic_size are other units.
+    """
+
+    prop, file, qualname = PROP, OPS, "irdl_op_verify_arg_list"
+    raises_ok = ("VerifyException",)
+
+    def __init__(self):
+        from pyvc.engine import Res
+
+        spec = self
+
+        def b_getattr(ex, st, args, kw):
+            j = spec.names.index(z3.simplify(args[1].z).as_long())
+            return [Res("val", spec.vals[j], st)]
+
+        def b_verify(ex, st, args, kw):
+            j = z3.simplify(st.env["arg_def"].z).as_long() - 500
+            want = spec.segs[j]
+            got = arith.as_seq(ex.to_seq_value(args[0], st))
+            i = z3.Int("va!i")
+            ex.oblige(st, "call-pre", f"constr.verify:definition-{j}-is-verified-against-exactly-the-types-of-its-segment (the empty range if absent)",
+                      z3.And(got.n == want.n, forall([i], z3.Implies(z3.And(i >= 0, i < want.n), z3.Select(got.arr, i) == z3.Select(want.arr, i)))), "property")
+            ex.oblige(st, "call-pre", "constr.verify:in-the-shared-constraint-context", args[1].z == 77, "property")
+            out = []
+            for ok, bs in ex.split(st, z3.Bool(f"constraint_{j}_accepts")):
+                if ok:
+                    bs.ghost["verified"] = z3.Store(bs.ghost["verified"], j, True)
+                    out.append(Res("val", None, bs))
+                else:
+                    out.append(Res("raise", "VerifyException", bs))
+            return out
+
+        b_verify.ghost_modifies = ["verified"]
+        noop = lambda doc: Builtin(lambda ex, st, a, k: [Res("val", None, st)], doc)
+        self.calls = {"verify_variadic_size": noop("the segment sizes are legal (units SameSize / AttrSize / Dispatch)"), "getattr": Builtin(b_getattr, "the generated accessor of the definition"),
+                      "arg_def.constr.verify": Builtin(b_verify, "RangeConstraint.verify(types, ctx): accepts or raises VerifyException (C09)"),
+                      "get_construct_name": Builtin(lambda ex, st, a, k: [Res("val", VRef(z3.IntVal(9), "str"), st)], "")}
+
+    @property
+    def globals(self):
+        spec = self
+
+        def ga(ex, st, base, attr):
+            if base.cls == "OpDef" and attr in ("operands", "results"):
+                return VTuple([VTuple([VRef(z3.IntVal(n), "str"), VRef(z3.IntVal(500 + j), "ArgDef")]) for j, n in enumerate(spec.names)])
+            if base.cls == "OneValue" and attr == "type":
+                return VRef(TYPE_OF(base.z), "Attribute")
+            if base.cls == "Values" and attr == "types":
+                return VSeq(SEG_TYPES(base.z), spec.lens[z3.simplify(base.z).as_long() - 300], "ref", "Attribute")
+            return None
+
+        def isinst(ex, st, v, cls):
+            if isinstance(cls, VGlobal) and cls.text == "Sequence":
+                return isinstance(v, VRef) and v.cls == "Values"
+            return None
+
+        return {"__getattr__": ga, "__isinstance__": isinst, "Sequence": VGlobal("Sequence"), "VarIRConstruct": VGlobal("VarIRConstruct"),
+                "__fstring__": lambda ex, st, parts: VRef(z3.IntVal(1), "str"), "__eq__": lambda ex, st, a, b: True if (isinstance(a, VGlobal) or isinstance(b, VGlobal)) else None}
+
+    def setup(self, st, inst):
+        shapes = inst["shapes"]  # per definition: n = absent optional, x = single value, q = sequence
+        self.names = [400 + j for j in range(len(shapes))]
+        self.vals, self.segs, self.lens = [], [], {}
+        for j, sh in enumerate(shapes):
+            if sh == "n":
+                self.vals.append(None)
+                self.segs.append(VSeq(z3.K(z3.IntSort(), z3.IntVal(0)), z3.IntVal(0), "ref"))
+            elif sh == "x":
+                v = z3.IntVal(200 + j)
+                self.vals.append(VRef(v, "OneValue"))
+                self.segs.append(VSeq(z3.K(z3.IntSort(), TYPE_OF(v)), z3.IntVal(1), "ref"))
+            else:
+                n = st.declare_input(f"len{j}", z3.Int(f"len{j}"))
+                st.assume(n >= 0)
+                self.lens[j] = n
+                v = z3.IntVal(300 + j)
+                self.vals.append(VRef(v, "Values"))
+                self.segs.append(VSeq(SEG_TYPES(v), n, "ref"))
+        st.ghost["verified"] = z3.K(z3.IntSort(), z3.BoolVal(False))
+        return {"op": VRef(z3.IntVal(1), "Operation"), "op_def": VRef(z3.IntVal(2), "OpDef"), "construct": VGlobal("VarIRConstruct.OPERAND"),
+                "constraint_context": VRef(z3.IntVal(77), "ConstraintContext"), "_n": len(shapes)}
+
+    def post(self, old, st, a, res):
+        return [C("accepted-only-after-every-definition-was-verified-against-its-segment", z3.And(*[st.ghost["verified"][j] for j in range(a["_n"])]) if a["_n"] else z3.BoolVal(True))]
+
+    def post_exc(self, old, st, a, exc):
+        return [A("rejected-only-because-some-constraint-rejected", z3.BoolVal(True))] if exc == "VerifyException" else None
+
+    def native_search(self, inst, seed):
+        r = _native_shared("quick", seed)
+        return r["failures"][0] if r["failures"] else None
+
+
 _shared_cache: dict = {}
 
 
@@ -720,6 +824,7 @@ def make_specs(tier):
             continue
         for i, k in enumerate(ks):
             (sv if k == VARIADIC else ss).append({"kinds": ks, "idx": i})
+    add(VerifyArgList(), [{"shapes": "".join(sh)} for n in range(0, 4) for sh in itertools.product("nxq", repeat=n)])
     add(SameVarAccessor("SameVariadicAccessor", True), sv)
     add(SameVarAccessor("SameVariadicSingleAccessor", False), ss)
     acc = [{"D": D, "idx": i} for D in range(1, 5) for i in range(D)]
